@@ -231,6 +231,54 @@ def ep_filter(prog: Program) -> RuleResult:
     return r
 
 
+def ep_operand(prog: Program) -> RuleResult:
+    """Operand results are filtered on their truth flag by comparators; the flag of a value-producing node must therefore not
+    depend on the truthiness of the value unless the node stands in condition position."""
+    from ..cfg import CFG
+    from ..model import walk_local
+
+    r = RuleResult("EP-OPERAND", "a value-producing node flags its result false from the value's truth only in condition position", floor=2)
+    cbv = prog.cls("symbolic.CanBehaveLikeAVariable").qual
+    seen = set()
+    for c in concrete_classes(prog):
+        if not prog.is_subclass(c.qual, cbv):
+            continue
+        for f in {prog.lookup(c.qual, "_evaluate__")} | {prog.lookup(c.qual, m) for m in ("_build_operation_result_and_update_truth_value_", "_process_output_and_update_values_")}:
+            if f is None or f.qual in seen:
+                continue
+            seen.add(f.qual)
+            cfg = CFG(f.node)
+            for n in cfg.nodes:
+                if n.stmt is None:
+                    continue
+                for call in [x for part in cfg._own_parts(n) for x in ast.walk(part) if isinstance(x, ast.Call) and isinstance(x.func, ast.Name) and x.func.id == "OperationResult" and len(x.args) >= 2]:
+                    flag = call.args[1]
+                    # expressions the flag is computed from (through one local)
+                    exprs = [flag]
+                    if isinstance(flag, ast.Name):
+                        exprs += [st.value for st in walk_local(f.node) if isinstance(st, ast.Assign) and src(st.targets[0]) == flag.id]
+                    value_truth = [e for e in exprs for x in ast.walk(e) if isinstance(x, ast.Call) and isinstance(x.func, ast.Name) and x.func.id == "bool"]
+                    if not value_truth:
+                        continue
+                    if f.name == "_process_output_and_update_values_":
+                        r.ok(f"{f.short}#flag", f"{f.module.relpath}:{call.lineno}", src(flag), "a predicate's result *is* a truth value")
+                        continue
+                    # every assignment of a value-truth to the flag must be control-dependent on a condition-position test
+                    ok = True
+                    for st in [m for m in cfg.nodes if isinstance(m.stmt, ast.Assign) and isinstance(flag, ast.Name) and src(m.stmt.targets[0]) == flag.id and "bool(" in src(m.stmt.value)]:
+                        guarded = any(t.kind == "test" and isinstance(t.stmt, ast.If) and t.true_succ is not None and cfg.dominates(t.true_succ, st.id) and ("_parent_" in src(t.stmt.test) or "_conditions_root_" in src(t.stmt.test)) for t in cfg.nodes)
+                        ok = ok and guarded
+                    if not isinstance(flag, ast.Name):
+                        ok = False
+                    r.check(ok, f"{f.short}#value-truth-as-flag", f"{f.module.relpath}:{call.lineno}", src(call)[:100],
+                            "the value's truth decides the flag only where the node is a condition",
+                            "the result is flagged false whenever the produced value is falsy, wherever the node stands: as an operand of a comparator (which keeps true operand "
+                            "results only) a legitimate value such as 0, '' or an empty collection is dropped - and_(x >= 0, x < 3) over [0, 1, 2] loses 0")
+    return r
+
+
 def run(prog: Program, tier: str) -> List[RuleResult]:
+    from .c03 import domain_cache
+
     _cache.clear()
-    return [ep_thread(prog), ep_neg(prog), ep_filter(prog)]
+    return [ep_thread(prog), ep_neg(prog), ep_filter(prog), ep_operand(prog), domain_cache(prog)]
